@@ -8,7 +8,7 @@
 //!   leq|lcmp|lcomp|llc <label> <label>      => true|false | Lt|Eq|Gt
 //!   lhash <label>                           => <octets fed to the Hasher>
 //!   neq|neqi|ncmp|ccmp|ccmpi|lccmp <wire> <wire>   flat names (i = iterator path)
-//!   nhash <wire>
+//!   nhash <wire>; nord <wire> <wire> (Ord::cmp of Name); req|rord <relwire> <relwire>, rhash <relwire> (RelativeName ==, Ord, Hash)
 //!   peq|pcmp <msg> <pos> <wire>, phash <msg> <pos>   name parsed at pos
 //!   psuf <msg> <pos> <k> <wire>    name parsed at pos, k x parent(): `Ok <eq> <cmp> <composed> <lc> <hash>`
 //!   cheq|chcmp|chlc <relwire> <abswire> <wire>        chain against a flat name
@@ -105,6 +105,13 @@ fn gen_name(r: &mut Rng) -> Labels {
         let l = gen_label(r);
         n.push(l);
         if !valid(&n) { n.pop(); break; }
+    }
+    if r.chance(1, 20) {
+        // the maximal number of labels: 127 one-octet labels (255 octets with the root), or a few less
+        let count = *r.pick(&[127usize, 127, 127, 126, 126, 125, 124, 100, 64]);
+        let fill = gen_octet(r);
+        n = (0..count).map(|_| vec![if r.chance(1, 8) { gen_octet(r) } else { fill }]).collect();
+        return n;
     }
     if r.chance(1, 25) {
         // exactly the maximal length: 255 octets with the root label
@@ -286,6 +293,8 @@ fn name_cases(out: &mut Out, r: &mut Rng, n: u64) {
         (vec![vec![1], b"z".to_vec(), b"example".to_vec()], s("*.z.example")), (vec![vec![200], b"z".to_vec(), b"example".to_vec()], s("*.z.example")),
         (s("www.example.com"), s("example.com")), (vec![b"@".to_vec()], vec![b"`".to_vec()]), (vec![b"[".to_vec()], vec![b"{".to_vec()]),
         (vec![vec![b'a'; 63], vec![b'b'; 63], vec![b'c'; 63], vec![b'd'; 61]], vec![vec![b'A'; 63], vec![b'B'; 63], vec![b'C'; 63], vec![b'D'; 61]]),
+        (vec![vec![b'm']; 127], s("z")), (vec![vec![b'm']; 127], vec![vec![b'm']; 126]), (vec![vec![b'm']; 127], vec![vec![b'M']; 127]),
+        (vec![vec![b'm']; 126], s("z")), (vec![vec![b'a']; 127], { let mut v = vec![vec![b'a']; 127]; v[0] = vec![b'b']; v }),
     ];
     for i in 0..n {
         let (a, b) = if !corpus.is_empty() { corpus.remove(0) } else {
@@ -312,6 +321,19 @@ fn name_cases(out: &mut Out, r: &mut Rng, n: u64) {
         out.case(&format!("ccmpi {}", pair), &format!("Ok {}", ord(it.comp)), nt, "ccmpi");
         let (ha, hb) = (feed(&fa), feed(&fb));
         if i % 2 == 0 { out.case(&format!("nhash {}", hex(&wa)), &format!("Ok {}", hex(&ha)), true, "nhash"); }
+        // the operators (Ord::cmp as used by BTreeMap, sort_by, max)
+        out.case(&format!("nord {}", pair), &show(catch({ let (x, y) = (fa.clone(), fb.clone()); move || x.cmp(&y) }), |o| ord(*o).to_string()), nt, "nord");
+        {
+            let (x, y) = (fa.clone(), fb.clone());
+            let r2 = catch(move || (x.cmp(&y), y.cmp(&x), x.partial_cmp(&y), x.canonical_cmp(&y), std::cmp::max(&x, &y) == &y, x < y, x <= y, x > y));
+            match r2 { Err(e) => chk(out, false, "name_ord_panic", &pair, &e), Ok((c1, c2, pc, cc, mx, lt, le, gt)) => {
+                let want = rfc_name_cmp(&a, &b);
+                chk(out, c1 == want, "name_ord_rfc4034_6_1", &pair, &format!("Ord::cmp {} want {}", ord(c1), ord(want)));
+                chk(out, c2 == want.reverse(), "name_ord_rfc4034_6_1", &pair, "reversed");
+                chk(out, pc == Some(c1) && cc == c1, "name_ord_differs_from_partial_cmp", &pair, &format!("cmp {} partial_cmp {:?} canonical_cmp {}", ord(c1), pc, ord(cc)));
+                chk(out, mx == (want != Ordering::Greater) && lt == (want == Ordering::Less) && le == (want != Ordering::Greater) && gt == (want == Ordering::Greater), "name_ord_operators", &pair, "");
+            } }
+        }
         // ---- oracle on the flat pair
         chk(out, base.eq == (fa == fb) && base.cmp == fa.cmp(&fb) && fa.partial_cmp(&fb) == Some(base.cmp)
                   && fa.canonical_cmp(&fb) == base.cmp, "name_operator_is_trait_fn", &pair, "");
@@ -419,6 +441,10 @@ fn name_cases(out: &mut Out, r: &mut Rng, n: u64) {
             let (rx, ry) = (RelativeName::from_octets(wire_rel(&x)).unwrap(), RelativeName::from_octets(wire_rel(&y)).unwrap());
             let c = format!("rel {} {}", hex(&wire_rel(&x)), hex(&wire_rel(&y)));
             let e = rx == ry;
+            out.case(&format!("req {} {}", hex(&wire_rel(&x)), hex(&wire_rel(&y))), &format!("Ok {}", e), x != y, "req");
+            out.case(&format!("rord {} {}", hex(&wire_rel(&x)), hex(&wire_rel(&y))), &format!("Ok {}", ord(rx.cmp(&ry))), x != y, "rord");
+            out.case(&format!("rhash {}", hex(&wire_rel(&x))), &format!("Ok {}", hex(&feed(&rx))), true, "rhash");
+            chk(out, rx.partial_cmp(&ry) == Some(rx.cmp(&ry)), "relname_ord_differs_from_partial_cmp", &c, "");
             chk(out, e == rfc_name_eq(&x, &y), "relname_eq_ci_labelwise", &c, "");
             chk(out, e == (ry == rx), "relname_eq_sym", &c, "");
             chk(out, rx.cmp(&ry) == rfc_name_cmp(&x, &y), "relname_order_rfc4034_6_1", &c, "");
